@@ -9,6 +9,8 @@
     and the proposal commitment); `into_filtered_block` snapshots all rollup ids before it
     removes any entry.
  R3 (K3c) the two filter routines agree field by field.
+ R5 (K2) a binary search is only performed over a sequence that was sorted first (the
+    sequencer's filtered-block endpoint filters requested ids against the block's sorted ids).
  R4 (K5) the Celestia split copies each rollup's own (id, transactions, proof) under the
     block's hash and lists exactly the ids of the rollup map; the conductor audits
     (rollup id || root(transactions)) with the blob's own proof against the metadata's root and
@@ -69,6 +71,7 @@ def run(prog, rep):
     r2(prog, rep)
     r3(prog, rep)
     r4(prog, rep)
+    r5(prog, rep)
 
 
 def bool_call_true_edges(body, rx, must_args=()):
@@ -256,3 +259,89 @@ def r4(prog, rep):
     k1_callers(prog, rep, "R4", [BL + "SequencerBlock::split_for_celestia"],
                [re.compile(r"^astria_sequencer_relayer::relayer::write::conversion::")], floor=1,
                ignore_owner=is_test_owner)
+
+
+# ----------------------------------------------------------------------------------------------
+# R5 (strengthened after seed C07a): binary search only over a sequence that was sorted first
+
+def capture_root(prog, child, place):
+    """Resolve a captured variable used in closure `child` to its root in the creating body.
+    Returns (parent_body, root, creation_bb) or None."""
+    parts = [x for x in place.split("|") if x != "*"]
+    if parts[0] != "1" or len(parts) < 2 or not parts[1].startswith("."):
+        return None
+    try:
+        idx = int(parts[1][1:])
+    except ValueError:
+        return None
+    for parent in prog.bodies_of(child.owner):
+        for i, j, p, rv, line in parent.aggregates("closure"):
+            if rv[2] == child.name and idx < len(rv[4]):
+                return parent, parent.root(rv[4][idx]), i
+    return None
+
+
+def r5(prog, rep):
+    n = 0
+    for b in prog.bodies:
+        if is_test_owner(b.owner) or not b.owner.startswith(("astria_sequencer::", "<astria_sequencer::",
+                                                              "astria_core::", "astria_conductor::",
+                                                              "astria_sequencer_relayer::")):
+            continue
+        for c in b.calls:
+            if not c.matches(r"core::slice::<impl \[T\]>::binary_search(_by|_by_key)?$"):
+                continue
+            n += 1
+            recv = c.args[0]
+            body, root, site = b, b.root(recv), c.bb
+            # receiver is a captured variable of a closure: resolve in the creating body
+            place = recv[1] if recv[0] in "cm" else None
+            src = None
+            if place is not None:
+                # follow refs/derefs to the upvar place
+                l = int(place.split("|")[0])
+                ds = b.defs.get(l, [])
+                cand = place
+                for _ in range(6):
+                    if cand.split("|")[0] == "1" and "|" in cand:
+                        break
+                    ds = b.defs.get(int(cand.split("|")[0]), [])
+                    if len(ds) == 1 and ds[0][0] == "stmt" and ds[0][4][0] in ("ref", "use"):
+                        rv = ds[0][4]
+                        cand = rv[2] if rv[0] == "ref" else (rv[1][1] if rv[1][0] in "cm" else cand)
+                    elif len(ds) == 1 and ds[0][0] == "call" and ds[0][2].args:
+                        a0 = ds[0][2].args[0]
+                        cand = a0[1] if a0[0] in "cm" else cand
+                    else:
+                        break
+                src = capture_root(prog, b, cand)
+            if src is not None:
+                body, root, site = src
+            sorts = [s for s in body.calls if s.matches(r"core::slice::<impl \[T\]>::sort(_unstable)?(_by|_by_key)?$")
+                     and body.root(s.args[0]) == root]
+            ok = bool(sorts) and any(body.must_pass_block(s.bb, site) for s in sorts)
+            rep.check(ok, "R5", f"binary_search<=sorted:{short_name(b.owner)}",
+                      f"{b.owner}: binary_search over `{root[:70]}`, which is not sorted on every "
+                      f"path before the search (a search over unsorted data misses entries: "
+                      f"requested rollups with data would be silently omitted)", c.where(),
+                      detail=f"sorted at L{sorts[0].line}" if sorts else "")
+            if "get_filtered_sequencer_block" in b.owner:
+                rep.check("get_rollup_ids_by_block_hash(" in root, "R5", "filter-against-block-ids",
+                          f"requested rollup ids are filtered against `{root[:70]}`, not against the "
+                          f"block's own rollup ids", c.where())
+    rep.floor("R5", n, 1, "binary_search call sites")
+    # the served list of all rollup ids is the block's stored list
+    o = "<astria_sequencer::grpc::sequencer::SequencerServer as astria_core::generated::astria::sequencerblock::v1::sequencer_service_server::SequencerService>::get_filtered_sequencer_block"
+    if o in prog.by_owner:
+        body = prog.main_body(o)
+        for i, j, p, rv, line in body.aggregates("adt", r"sequencerblock::v1::FilteredSequencerBlock$"):
+            f = dict(zip(rv[5], [body.root(x) for x in rv[4]]))
+            rep.check("get_rollup_ids_by_block_hash(" in f.get("all_rollup_ids", ""), "R5",
+                      "served-all_rollup_ids=stored", f"all_rollup_ids served from {f.get('all_rollup_ids', '')[:70]}",
+                      f"{body.file}:{line}")
+            rep.check("get_rollup_data(" in f.get("rollup_transactions", "") or
+                      "with_capacity(" in f.get("rollup_transactions", ""), "R5",
+                      "served-rollup-data=stored", f"rollup data served from {f.get('rollup_transactions', '')[:70]}",
+                      f"{body.file}:{line}")
+    else:
+        rep.anchor_missing("R5", o)
